@@ -197,6 +197,21 @@ CLAIMED["C18"] = ("model_checking",
     "TLA+ reference set semantics + TLC closed graph for small N; transitions and random sequences replayed on frg::bitset for many N; observations validated by TLC",
     "Bits", "5 C18")
 
+CLAIMED["C19"] = ("exploration",
+    "PrintfOps.tla transcribes the ISO C 7.21.6.1 layout of one directive (sign selection, # for o/x/X, precision as "
+    "minimum digits, precision 0 with value 0, 0 ignored with - or a precision, padding placement, * width/precision "
+    "incl. negative arguments, %p in frigg's documented 0x<hex> form) as a function from a directive record to bytes; "
+    "Printf.tla enumerates the directive space flags x width x precision x length modifier x conversion x boundary "
+    "value (92k combinations quick, ~10^6 thorough; undefined combinations excluded). Each directive is rendered by the "
+    "real printf_format + do_printf_*, by glibc and by the specification; PrintfTrace.tla demands byte equality with "
+    "the specification (a spec/glibc disagreement is reported as a specification error). FmtOps.tla gives the "
+    "{}-grammar of fmt() incl. echo of malformed, out-of-range and unclosed specs; the logger clause checks that the "
+    "chunks concatenate to the text and are shorter than the limit for lengths around multiples of four buffer sizes.",
+    "exploration of a generated input space, not a state space: positional %n$ arguments are exercised only through the C20 parser inputs; "
+    "digit generation is numeric and happens outside TLA+; fmt() with negative values and widths is not generated (documentation silent)",
+    "TLA+ transcription of ISO C directive layout + TLC-enumerated directive space; real printf run on every directive next to glibc; bytes validated by TLC",
+    "Fmt", "5 C19")
+
 NOT_YET = "check not built yet in this round (see DESIGN.md build order); not claimed until its TLA+ spec and conformance harness exist"
 
 checks, na = [], []
